@@ -281,6 +281,15 @@ def run_sholl(case, ctx):
                   lambda: f"r={r!r}: got {g}, expected {lo}..{hi}; parents {parents}, radial {d.tolist()}")
     if n_amb:
         ctx.ambiguous("sholl:radius-within-band-of-a-node")
+    if rmax > 0 and case["pick"] and case["pick"][0] % 3 == 0:
+        # an analysis object made with the deprecated `step` argument still counts at the radius it is asked about
+        ctx.cls("sholl-object-made-with-the-deprecated-step-argument")
+        legacy = ctx.lib("Sholl(step=)", Sholl, tree, step=max(rmax / 7.0, 1e-3))
+        for r in radii[:4]:
+            lo, hi = _sholl_bounds(d, parents, r, band)
+            g = int(ctx.lib("sholl.intersect", legacy.intersect, r))
+            ctx.check(lo <= g <= hi, "sholl/intersect-counts-straddling-segments[legacy-object]",
+                      lambda: f"r={r!r}: got {g}, expected {lo}..{hi}")
     # a radius exactly equal to a node's radial distance.  The float64 reference cannot decide "<= r" there,
     # but the library's own per-end radii can once they are validated against the reference: `rs` must be the
     # (parent, child) radial distances in node order; then the straddle rule is applied here, exactly.
@@ -489,7 +498,7 @@ SUBCHECKS = [
                   "rootdeg:3+": 40, "single-node": 3, "front-end:list": 50, "front-end:dict": 50,
                   "branch:zero-length": 5}),
     Sub("sholl", sholl_strategy, run_sholl, quick=2400, thorough=30000, shards_quick=4,
-        required={"root-off-origin": 200, "rmax>0": 300}),
+        required={"root-off-origin": 200, "rmax>0": 300, "sholl-object-made-with-the-deprecated-step-argument": 100}),
     Sub("lmeasure", lmeasure_strategy, run_lmeasure, quick=1500, thorough=16000, shards_quick=4,
         required={"binary": 100, "general": 100, "bifurcations>=2": 50}),
     Sub("population", population_strategy, run_population, quick=400, thorough=3000, shards_quick=4,
